@@ -175,7 +175,7 @@ fn rank(s: &str) -> u8 {
 pub fn canon_compound(c: &str) -> String {
     let mut v = simples(c);
     // `*.c` and `.c` are the same compound
-    if v.len() > 1 && v[0] == "*" && !v[1].starts_with("::") {
+    if v.len() > 1 && v[0] == "*" {
         v.remove(0);
     }
     v.sort_by(|a, b| rank(a).cmp(&rank(b)).then_with(|| a.cmp(b)));
